@@ -155,10 +155,12 @@ def run_of_line(path, line):
     return max(n, 0)
 
 
-def validate_trace(c, raw, label, max_skip=4):
+def validate_trace(c, raw, label, max_skip=4, skip=()):
     """TLC validation of a (multi-run) trace; runs that are not explained are reported as drift and
-    skipped so that the rest is still validated.  Returns (#runs accepted, #runs rejected)."""
-    dropped = []
+    skipped so that the rest is still validated.  `skip`: runs not to validate (inconclusive replays).
+    Returns (#runs accepted, #runs rejected)."""
+    dropped = list(skip)
+    max_skip += len(dropped)
     while True:
         norm = os.path.join(c.work, "trace_%s_%d.ndjson" % (label, len(dropped)))
         nruns, nlines = normalise_trace(raw, norm, set(dropped))
@@ -176,7 +178,7 @@ def validate_trace(c, raw, label, max_skip=4):
             c.fail_tool("Trace_PathSync produced no verdict (see %s)" % r.out_path)
         f, n = int(m.group(1)), int(m.group(2))
         if f == n + 1:
-            return nruns, len(dropped)
+            return nruns, len(dropped) - len(skip)
         um = [l for l in txt.splitlines() if l.startswith('<<"UNMATCHED"')]
         bad = run_of_line(norm, f)
         # map back to the index in the raw file
@@ -296,14 +298,14 @@ def run(c):
     stages = set((os.environ.get("VERIF_C20_STAGES") or "mc,mut,gen,rec").split(","))
 
     # ---- 1. exhaustive runs -------------------------------------------------------------------
-    # distinct states (measured): wake 128 474; drop 125 300; dropfull 976 432; handle3 547 004
+    # distinct states (measured): wake 182 458; drop 171 500; dropfull 1 319 018; refetch 1 069 399;
+    # (not in any tier, measured once: 3 callers with a kept handle 799 172; 2 pairs + handle 1 239 308)
     cfgs = [("wake", dict(wait=["c1", "c2"], nw=2, maxfetch=1, reclaim=True)),
             ("drop", dict(wait=["c1"], cached=["c2"], handle=["c3"], nw=2, maxfetch=1, cancel=["c1"], reclaim=False))]
     if thorough:
         cfgs += [("dropfull", dict(wait=["c1"], cached=["c2"], handle=["c3"], nw=2, maxfetch=1, cancel=["c1"], reclaim=True, used=True)),
                  ("refetch", dict(wait=["c1", "c2"], nw=2, maxfetch=2, reclaim=False, used=True)),
-                 ("handle3", dict(wait=["c1", "c2"], handle=["c3"], nw=2, maxfetch=1, reclaim=False)),
-                 ("twokeys", dict(wait=["c1", "c2"], key2=["c2"], handle=["c3"], nw=2, keys="{1, 2}", maxfetch=1, reclaim=False))]
+                 ("twokeys", dict(wait=["c1", "c2"], key2=["c2"], nw=2, keys="{1, 2}", maxfetch=1, reclaim=True))]
     need = ["FirstPoll", "FetchReturn", "Finish", "StopExit", "ExitUpgrade", "ExitRemove", "ExitNotify", "ExitClear", "Start", "Ensure",
             "ActiveLoad", "CheckReg", "Wake", "Final", "Stop", "Drop", "IdleCheck"]
     for name, k in cfgs:
@@ -418,7 +420,9 @@ def run(c):
                             {"gen": gname, "schedule": alts[0], "callers": meta, "real": res})
         c.sample({"replayed_schedule": short_key(groups[sel[len(sel) // 2]][0]), "gen": gname, "distinct_schedules_generated": len(groups)})
         c.cov.setdefault("gen_stats", []).append({"gen": gname, "maxev": maxev, "schedules": len(groups), "replayed": len(sel)})
-        replay_traces.append((gname, outp + ".trace.ndjson", len(sel)))
+        ran = [res for res in outs if not res.get("skipped")]   # skipped schedules have no run in the trace file
+        inconcl = [i for i, res in enumerate(ran) if res.get("unsched") or res.get("timing")]
+        replay_traces.append((gname, outp + ".trace.ndjson", inconcl))
     c.cov["replayed"] = total_replayed
     c.cov["replay_conform"] = conform
     c.cov["replay_inconclusive_timing"] = inconclusive
@@ -426,8 +430,10 @@ def run(c):
         c.drift("fewer than half of the replayed schedules conform (%d of %d): the I-spec and the code disagree systematically" % (conform, total_replayed))
 
     traces = 0
-    for gname, tp, n in replay_traces:
-        acc, rej = validate_trace(c, tp, "replay_" + gname)
+    for gname, tp, inconcl in replay_traces:
+        # runs in which a timer of the code disturbed the schedule are not behaviours of the
+        # generation spec's bounds (e.g. a third worker): nothing is concluded from them
+        acc, rej = validate_trace(c, tp, "replay_" + gname, skip=inconcl)
         traces += acc
     c.cov["replay_traces_validated"] = traces
     if replay_traces:
